@@ -1,8 +1,216 @@
-import NfcVerif.Model.IsoDep
+import NfcVerif.Lemmas.IsoDep
+/-!
+# C12 - ISO-DEP exchanges each APDU exactly once or reports a tag error
+
+Statements; the invariant proofs are in `Lemmas/IsoDep.lean`.  Model:
+`Model/IsoDep.lean` - `exchange` is `IsoDepInitiator.exchange` (with the S(WTX) handling
+of `fixes/C12`), `isoPeer cfg` an ISO/IEC 14443-4 PICC with an arbitrary application
+`cfg.app`, arbitrary response block size and arbitrary placement of S(WTX) requests, the
+`World` carries an arbitrary fault script (`d`eliver, `l`ose, `c`orrupt, `p`rotocol error,
+`e`mpty frame, per transmitted block).
+
+`Sync pni card` (card and reader in step, no partial command chain in the card) holds after
+activation (`sync_init`) and is re-established by every successful exchange
+(`isodep_response_exact`), so the theorems cover every sequence of exchanges up to and
+including the first failing one.  What happens after a failed exchange is the open finding
+`isodep-stale-after-error` (`isodep_stale_after_error_counterexample`).
+-/
 namespace NfcVerif.C12
-theorem isodep_at_most_once : True := trivial
-theorem isodep_response_exact : True := trivial
-theorem isodep_error_kind : True := trivial
-theorem isodep_block_bound : True := trivial
-theorem fsc_fwt_derivation : True := trivial
+open NfcVerif NfcVerif.IsoDep
+
+/-- activation state: PCD block number 0, PICC block number 1 (rules A and C) -/
+theorem sync_init : Sync 0 Card.init := ⟨rfl, rfl⟩
+
+/-- **At most once.** For every card application, response block size, S(WTX) placement, fuel,
+retry budgets, frame size, command and *every fault script*: the card's execution log after
+`exchange` is the old log, or the old log plus exactly the command that was sent (never a
+second execution, never a truncated or spliced command) - also when `exchange` fails. -/
+theorem isodep_at_most_once (cfg : CardCfg) (F : Nat) (pcd : Pcd) (cmd : Bytes) (w : World Card)
+    (hp : pcd.pni < 2) (hs : Sync pcd.pni w.card) :
+    (exchange (isoPeer cfg) F pcd cmd w).1.card.log = w.card.log ∨
+    (exchange (isoPeer cfg) F pcd cmd w).1.card.log = w.card.log ++ [cmd] := by
+  by_cases h : pcd.miu ≤ 0 ∨ cmd = []
+  · left
+    unfold exchange
+    by_cases h0 : pcd.miu = 0
+    · simp [h0]
+    · have : pcd.miu < 0 ∨ cmd = [] := by
+        rcases h with h | h
+        · exact Or.inl (by omega)
+        · exact Or.inr h
+      simp [h0, this]
+  · have hpos : 0 < pcd.miu := by
+      by_cases h' : pcd.miu ≤ 0
+      · exact absurd (Or.inl h') h
+      · omega
+    have hm : 1 ≤ pcd.miu.toNat := by omega
+    have hc : cmd ≠ [] := fun hc => h (Or.inr hc)
+    have := exchange_post cfg F pcd cmd w pcd.miu.toNat (by omega) hm hc hp hs (fun _ => True)
+      (fun _ _ => trivial) (fun _ _ => trivial)
+    obtain ⟨_, hres⟩ := this
+    generalize exchange (isoPeer cfg) F pcd cmd w = r at hres ⊢
+    obtain ⟨w1, p1, res⟩ := r
+    cases res with
+    | error e => exact hres.2
+    | ok x => exact Or.inr hres.1
+
+example : (exchange (isoPeer ⟨2, 1, 1, 1, 3, fun n c => c ++ [n, 0x90, 0]⟩) 20 ⟨0, 2, 5, 5⟩ [1, 2, 3, 4, 5]
+    ⟨Card.init, [.d, .l, .l, .d, .c, .d, .d, .e, .d, .d, .d, .l], []⟩).1.card.log = [[1, 2, 3, 4, 5]] := by decide
+/-- the same exchange with a retry budget of 2 fails, nothing was executed -/
+example : (exchange (isoPeer ⟨2, 1, 1, 1, 3, fun n c => c ++ [n, 0x90, 0]⟩) 20 ⟨0, 3, 2, 2⟩ [1, 2, 3, 4, 5]
+    ⟨Card.init, [.d, .l, .l, .d, .c, .d, .d, .e, .d, .d, .d, .l], []⟩).1.card.log = [] := by decide
+
+/-- **Exact response.** A response that `exchange` returns is the complete response of the card's
+execution of this very command (execution number `w.card.log.length`, so not a retransmission of
+an earlier response), the command was executed exactly once, and card and reader are in step
+again for the next exchange. -/
+theorem isodep_response_exact (cfg : CardCfg) (F : Nat) (pcd : Pcd) (cmd : Bytes) (w : World Card)
+    (hp : pcd.pni < 2) (hs : Sync pcd.pni w.card) (x : Bytes)
+    (hx : (exchange (isoPeer cfg) F pcd cmd w).2.2 = .ok x) :
+    x = cfg.app w.card.log.length cmd ∧
+    (exchange (isoPeer cfg) F pcd cmd w).1.card.log = w.card.log ++ [cmd] ∧
+    (exchange (isoPeer cfg) F pcd cmd w).2.1.pni < 2 ∧
+    Sync (exchange (isoPeer cfg) F pcd cmd w).2.1.pni (exchange (isoPeer cfg) F pcd cmd w).1.card := by
+  by_cases h : pcd.miu ≤ 0 ∨ cmd = []
+  · exfalso
+    unfold exchange at hx
+    by_cases h0 : pcd.miu = 0
+    · simp [h0] at hx
+    · have : pcd.miu < 0 ∨ cmd = [] := by
+        rcases h with h | h
+        · exact Or.inl (by omega)
+        · exact Or.inr h
+      simp [h0, this] at hx
+  · have hpos : 0 < pcd.miu := by
+      by_cases h' : pcd.miu ≤ 0
+      · exact absurd (Or.inl h') h
+      · omega
+    have hm : 1 ≤ pcd.miu.toNat := by omega
+    have hc : cmd ≠ [] := fun hc => h (Or.inr hc)
+    have := exchange_post cfg F pcd cmd w pcd.miu.toNat (by omega) hm hc hp hs (fun _ => True)
+      (fun _ _ => trivial) (fun _ _ => trivial)
+    obtain ⟨_, hres⟩ := this
+    generalize exchange (isoPeer cfg) F pcd cmd w = r at hres hx ⊢
+    obtain ⟨w1, p1, res⟩ := r
+    simp only at hx
+    subst hx
+    exact ⟨hres.2.1, hres.1, hres.2.2.1, hres.2.2.2⟩
+
+/-- command chained in 3 blocks, response chained in 4 blocks, S(WTX) before every card block, 6 faults -/
+example : (exchange (isoPeer ⟨2, 1, 1, 1, 3, fun n c => c ++ [n, 0x90, 0]⟩) 20 ⟨0, 2, 5, 5⟩ [1, 2, 3, 4, 5]
+    ⟨Card.init, [.d, .l, .l, .d, .c, .d, .d, .e, .d, .d, .d, .l], []⟩).2.2 = .ok [1, 2, 3, 4, 5, 0, 0x90, 0] := by decide
+
+/-- **Error kind.** Whatever the card does (any `Peer`, not only the ISO PICC), every fault script:
+if `exchange` raises, it raises `Type4TagCommandError` with errno `TIMEOUT_ERROR`, `RECEIVE_ERROR` or
+`PROTOCOL_ERROR` - no `IndexError`, no raw `nfc.clf` exception.  (`outOfFuel` is not a Python exception:
+it marks a run in which the card kept the reader busy for more than `F` blocks in one loop.) -/
+theorem isodep_error_kind {σ : Type} (P : Peer σ) (F : Nat) (pcd : Pcd) (cmd : Bytes) (w : World σ)
+    (hm : 0 < pcd.miu) (hcmd : cmd ≠ []) (e : Exc) (h : (exchange P F pcd cmd w).2.2 = .error e) :
+    e = .outOfFuel ∨ e = .tagCmd TIMEOUT_ERROR ∨ e = .tagCmd RECEIVE_ERROR ∨ e = .tagCmd PROTOCOL_ERROR :=
+  exchange_error_kind_any P F pcd cmd w hm hcmd e h
+
+example : (exchange (isoPeer ⟨2, 1, 0, 0, 3, fun n c => c ++ [n, 0x90, 0]⟩) 20 ⟨0, 3, 1, 1⟩ [1, 2]
+    ⟨Card.init, [.d, .d, .d, .c, .d, .l], []⟩).2.2 = .error (.tagCmd TIMEOUT_ERROR) := by decide
+
+/-- **Block bound.** With `miu = FSC - 3` every block handed to the reader during the exchange - I-blocks,
+R(ACK), R(NAK) and S(WTX) responses - is at most `FSC - 2` octets, i.e. fits the card's frame size with
+its two CRC octets. -/
+theorem isodep_block_bound (cfg : CardCfg) (F : Nat) (pcd : Pcd) (cmd : Bytes) (w : World Card) (fsc : Nat)
+    (hfsc : 4 ≤ fsc) (hmiu : pcd.miu = (fsc : Int) - 3) (hcmd : cmd ≠ [])
+    (hp : pcd.pni < 2) (hs : Sync pcd.pni w.card) :
+    ∀ b ∈ (exchange (isoPeer cfg) F pcd cmd w).1.trace, b ∈ w.trace ∨ b.length + 2 ≤ fsc := by
+  have := exchange_post cfg F pcd cmd w (fsc - 3) (by omega) (by omega) hcmd hp hs
+    (fun b => b ∈ w.trace ∨ b.length + 2 ≤ fsc) (fun b hb => Or.inr (by omega)) (fun b hb => Or.inl hb)
+  exact this.1
+
+/-- the frame size of the card after clamping to the device limit, FSCI 0..8 and RFU values -/
+theorem isodep_block_bound_derived (cfg : CardCfg) (F : Nat) (fsci fwi maxSend : Nat) (cmd : Bytes)
+    (script : List Fault) (hdev : 4 ≤ maxSend) (hcmd : cmd ≠ []) :
+    ∀ b ∈ (exchange (isoPeer cfg) F (mkPcd fsci fwi maxSend) cmd ⟨Card.init, script, []⟩).1.trace,
+      b.length + 2 ≤ maxSend ∧ b.length + 2 ≤ fscTable.getD (min fsci 8) 256 := by
+  intro b hb
+  have hmin : (if fsci > 8 then 8 else fsci) = min fsci 8 := by split <;> omega
+  have htab : ∀ i, i < 9 → 16 ≤ fscTable.getD i 256 := by decide
+  have h16 := htab (min fsci 8) (by omega)
+  have hle1 : deriveFsc fsci maxSend ≤ maxSend := by unfold deriveFsc; simp only [hmin]; split <;> omega
+  have hle2 : deriveFsc fsci maxSend ≤ fscTable.getD (min fsci 8) 256 := by
+    unfold deriveFsc; simp only [hmin]; split <;> omega
+  have hge : 4 ≤ deriveFsc fsci maxSend := by unfold deriveFsc; simp only [hmin]; split <;> omega
+  have := isodep_block_bound cfg F (mkPcd fsci fwi maxSend) cmd ⟨Card.init, script, []⟩ (deriveFsc fsci maxSend)
+    hge rfl hcmd (by simp [mkPcd]) (by simpa [mkPcd] using sync_init) b hb
+  rcases this with h | h
+  · simp at h
+  · omega
+
+example : ∀ b ∈ (exchange (isoPeer ⟨13, 1, 0, 0, 3, fun n c => c ++ [n, 0x90, 0]⟩) 20 (mkPcd 0 4 256)
+    (List.range 30) ⟨Card.init, [.d, .l], []⟩).1.trace, b.length + 2 ≤ 16 := by decide
+
+/-- **FSC / FWT derivation.** FSCI indexes the ISO table (RFU values 9..15 read as 8 = 256 octets), the result is
+clamped to the device limit; the retry budget is `min(int(1/FWT), 5)` with `FWT = 4096/13.56 MHz * 2^FWI`
+(FWI 15 read as 4): 5 for FWI ≤ 9, 3 for FWI 10, 1 for FWI 11, none from FWI 12 on. -/
+theorem fsc_fwt_derivation (fsci fwi maxSend : Nat) :
+    deriveFsc fsci maxSend = min (fscTable.getD (min fsci 8) 256) maxSend ∧
+    fscTable.getD (min fsci 8) 256 ∈ fscTable ∧
+    (mkPcd fsci fwi maxSend).miu = (deriveFsc fsci maxSend : Int) - 3 ∧
+    (mkPcd fsci fwi maxSend).pni = 0 ∧
+    (mkPcd fsci fwi maxSend).nNak = deriveRetry fwi ∧ (mkPcd fsci fwi maxSend).nAck = deriveRetry fwi ∧
+    deriveRetry fwi ≤ 5 ∧
+    (fwi ≤ 9 ∨ fwi = 15 → deriveRetry fwi = 5) ∧ (fwi = 10 → deriveRetry fwi = 3) ∧
+    (fwi = 11 → deriveRetry fwi = 1) ∧ (12 ≤ fwi ∧ fwi ≤ 14 → deriveRetry fwi = 0) ∧
+    (16 ≤ maxSend → 13 ≤ (mkPcd fsci fwi maxSend).miu) := by
+  have hmin : (if fsci > 8 then 8 else fsci) = min fsci 8 := by split <;> omega
+  have htab : ∀ i, i < 9 → fscTable.getD i 256 ∈ fscTable ∧ 16 ≤ fscTable.getD i 256 := by decide
+  have ht := htab (min fsci 8) (by omega)
+  have hfsc : deriveFsc fsci maxSend = min (fscTable.getD (min fsci 8) 256) maxSend := by
+    unfold deriveFsc; simp only [hmin]; split <;> omega
+  have hretry : ∀ k, k < 15 → min (13560000 / (4096 * 2 ^ k)) 5 ≤ 5 ∧ (k ≤ 9 → min (13560000 / (4096 * 2 ^ k)) 5 = 5) ∧
+      (k = 10 → min (13560000 / (4096 * 2 ^ k)) 5 = 3) ∧ (k = 11 → min (13560000 / (4096 * 2 ^ k)) 5 = 1) ∧
+      (12 ≤ k → min (13560000 / (4096 * 2 ^ k)) 5 = 0) := by decide
+  have hfwi : deriveFwi fwi < 15 := by unfold deriveFwi; split <;> omega
+  have hr := hretry (deriveFwi fwi) hfwi
+  refine ⟨hfsc, ht.1, rfl, rfl, rfl, rfl, hr.1, ?_, ?_, ?_, ?_, ?_⟩
+  · intro h
+    have : deriveFwi fwi ≤ 9 := by unfold deriveFwi; split <;> omega
+    exact hr.2.1 this
+  · intro h; exact hr.2.2.1 (by unfold deriveFwi; split <;> omega)
+  · intro h; exact hr.2.2.2.1 (by unfold deriveFwi; split <;> omega)
+  · intro h; exact hr.2.2.2.2 (by unfold deriveFwi; split <;> omega)
+  · intro h
+    show 13 ≤ (deriveFsc fsci maxSend : Int) - 3
+    omega
+
+example : mkPcd 2 11 24 = ⟨0, 21, 1, 1⟩ := by decide
+example : activateA [5, 0x78, 0x80, 0x70, 0x02] 256 = .ok ⟨0, 253, 5, 5⟩ := by decide
+
+/-! ## after a failed exchange (open findings `isodep-stale-after-error`, `isodep-duplicate-after-error`,
+`isodep-spliced-command-after-error`) -/
+
+/-- `isodep_response_exact` without the hypothesis that card and reader are in step -/
+def ResponseExactWithoutSync : Prop :=
+  ∀ (cfg : CardCfg) (F : Nat) (pcd : Pcd) (cmd : Bytes) (w : World Card) (x : Bytes), pcd.pni < 2 →
+    (exchange (isoPeer cfg) F pcd cmd w).2.2 = .ok x → x = cfg.app w.card.log.length cmd
+
+def exCfg : CardCfg := ⟨253, 0, 0, 0, 1, fun n c => c ++ [n, 0x90, 0]⟩
+def exPcd : Pcd := ⟨0, 253, 1, 1⟩
+/-- first exchange: command delivered, response and its retransmission lost; second exchange: I-block lost -/
+def exWorld : World Card := ⟨Card.init, [.d, .l, .d, .l, .l, .d, .d], []⟩
+
+/-- The state is reachable from activation: the first command fails with `Type4TagCommandError(TIMEOUT_ERROR)`
+after the card executed it; the second command then *returns the response of the first one* and is never
+executed. -/
+theorem isodep_stale_after_error_reachable :
+    (exchange (isoPeer exCfg) 8 exPcd [1, 1] exWorld).2.2 = .error (.tagCmd TIMEOUT_ERROR) ∧
+    (exchange (isoPeer exCfg) 8 (exchange (isoPeer exCfg) 8 exPcd [1, 1] exWorld).2.1 [2, 2]
+      (exchange (isoPeer exCfg) 8 exPcd [1, 1] exWorld).1).2.2 = .ok [1, 1, 0, 0x90, 0] ∧
+    (exchange (isoPeer exCfg) 8 (exchange (isoPeer exCfg) 8 exPcd [1, 1] exWorld).2.1 [2, 2]
+      (exchange (isoPeer exCfg) 8 exPcd [1, 1] exWorld).1).1.card.log = [[1, 1]] := by decide
+
+theorem isodep_stale_after_error_counterexample : ¬ ResponseExactWithoutSync := by
+  intro h
+  have := h exCfg 8 (exchange (isoPeer exCfg) 8 exPcd [1, 1] exWorld).2.1 [2, 2]
+    (exchange (isoPeer exCfg) 8 exPcd [1, 1] exWorld).1 [1, 1, 0, 0x90, 0] (by decide)
+    isodep_stale_after_error_reachable.2.1
+  revert this
+  decide
+
 end NfcVerif.C12
